@@ -33,10 +33,11 @@ theorem crun_maxFade (ops : List COp) : ∀ c : Chan, (crun c ops).maxFade = c.m
 /-- what one resumption of the stepping task hands to the hardware, for a channel satisfying the invariant -/
 theorem stepTask_line (c : Chan) (now iv : Nat) (r : Chan × Nat × Nat × Bool) (h : ChanOK c)
     (hr : c.stepTask now iv = some r) :
-    ∃ m T, c.cmd = some m ∧ m.tt = some T ∧ r.1.lastF ≤ c.maxFade ∧ r.1.lastB = (r.2.1, r.2.2.1) ∧
-      (r.2.2.2 = false → now + c.maxFade < T ∧ r.1.lastF = c.maxFade ∧ r.2.2.1 = 255 * (T - m.st) ∧
+    ∃ m T, c.cmd = some m ∧ m.tt = some T ∧ r.1.lastF ≤ 1000000 * c.maxFade ∧ r.1.lastB = (r.2.1, r.2.2.1) ∧
+      (r.2.2.2 = false → now + c.maxFade < T ∧ r.1.lastF = 1000000 * c.maxFade ∧ r.2.2.1 = 255 * (T - m.st) ∧
         r.2.1 = lineNum m.sb m.st m.tb T (now + c.maxFade)) ∧
-      (r.2.2.2 = true → T ≤ now + c.maxFade ∧ r.1.lastF = T - now ∧ (r.2.1, r.2.2.1) = (m.tb, 255) ∧ r.1.tasks = []) := by
+      (r.2.2.2 = true → T ≤ now + c.maxFade ∧ r.1.lastF = 1000000 * (T - now) ∧ (r.2.1, r.2.2.1) = (m.tb, 255) ∧
+        r.1.tasks = []) := by
   obtain ⟨_, h⟩ := h
   unfold Chan.stepTask at hr
   split at hr
@@ -220,14 +221,14 @@ theorem compute_R (s0 : BSt) (l0 : Nat) (r : BSt × CRes) (h0 : R s0) (hr : comp
         subst hx'
         rw [hp] at h2
         have q1 : ∀ b : B, ((s.roundSent.flatten ++ (s.acc ++ [(x, b)])).map (·.1)) =
-            (s.roundComp ++ [(x, fadeAt (s.fade x) s.now s.maxFade)]).map (·.1) := by
+            (s.roundComp ++ [(x, fdOf s x)]).map (·.1) := by
           intro b
           rw [← List.append_assoc, List.map_append, h1, List.map_append]
           rfl
         have q2 : ∀ f : Bool, (s.roundDone ++ [(x, f)]).map (·.1) ++ rest = s.taken := by
           intro f
           rw [← h2]; simp
-        have q3 : (s.roundComp ++ [(x, fadeAt (s.fade x) s.now s.maxFade)]).map (·.1) =
+        have q3 : (s.roundComp ++ [(x, fdOf s x)]).map (·.1) =
             ((s.roundDone ++ [(x, false)]).filter (fun y => !y.2)).map (·.1) := by
           rw [List.filter_append, List.map_append, List.map_append, h3]; rfl
         have q3s : s.roundComp.map (·.1) = ((s.roundDone ++ [(x, true)]).filter (fun y => !y.2)).map (·.1) := by
